@@ -1,3 +1,4 @@
+#![recursion_limit = "4096"]
 //! Native replay / translator-validation binary: one JSON command per stdin line, one JSON answer per stdout line.
 //! Linked against /repo's working tree; rebuilt by every check.
 use scale_info::{Path, PathError};
